@@ -56,3 +56,111 @@ kproof! {
 kproof! {
     fn k07a_stored_rewrite_10() { stored_rewrite::<10>(); }
 }
+
+use crate::huffman_encoding::HuffmanReader;
+
+/// no-op stand-in for DeflateReader::write_reference in the *rewrite* lemma (the plaintext
+/// is not its subject; the window is pre-filled so that every distance is legal)
+pub fn stub_write_reference<R: Read>(_s: &mut DeflateReader<R>, _dist: u32, _len: u32) {}
+pub fn stub_write_literal<R: Read>(_s: &mut DeflateReader<R>, _byte: u8) {}
+
+/// fixed-Huffman block: real decode_block + real writer vs the input bits and vs the RFC reference
+fn fixed_rewrite<const N: usize>(window: usize, check_plain: bool, max_tokens: usize) {
+    let mut src = Src::<N>::any();
+    let data = src.data;
+    let wfill: u8 = 0;
+    // Bound on the number of tokens, stated on the RFC reference *before* the real decoder runs
+    // (assumptions are not retroactive): the real loop's unwinding assertion then checks that
+    // the real decoder stops within max_tokens + 1 iterations whenever the reference does.
+    let rb = ref_fixed_block(&data, 3, window);
+    kani::assume(rb.n <= max_tokens && !rb.too_many);
+    let mut rd = DeflateReader::new(&mut src);
+    rd.plain_text = vec![0u8; window];
+    let last = rd.read_bit().unwrap();
+    let mode = rd.read_bits(2).unwrap();
+    kani::assume(mode == 1);
+    let decoder = HuffmanReader::create_fixed().unwrap();
+    let mut blk = PreflateTokenBlock::new(BlockType::StaticHuff);
+    let r = rd.decode_block(&decoder, &mut blk);
+    kani::assume(r.is_ok());
+    let pad = rd.read_eof_padding();
+    let plain = rd.move_plain_text();
+    drop(rd);
+    let consumed = src.pos;
+
+    // --- C03: agreement with the RFC reference
+    assert!(rb.ok, "reader accepted a block the RFC reference rejects");
+    assert!(!rb.too_many);
+    assert!(blk.tokens.len() == rb.n, "token count differs from the reference");
+    assert!(consumed == (rb.end_bit + 7) / 8, "consumed length differs from the reference");
+    let mut i = 0;
+    while i < REF_MAXTOK {
+        if i < rb.n {
+            match blk.tokens[i] {
+                PreflateToken::Literal(l) => assert!(!rb.toks[i].is_ref && rb.toks[i].lit == l),
+                PreflateToken::Reference(r) => {
+                    assert!(rb.toks[i].is_ref && rb.toks[i].len == r.len() && rb.toks[i].dist == r.dist());
+                    assert!(r.get_irregular258() == (r.len() == 258 && rb.toks[i].lcode == 27));
+                }
+            }
+        }
+        i += 1;
+    }
+    if check_plain {
+        // replay the reference tokens over the window
+        let mut exp: Vec<u8> = vec![0u8; window];
+        let mut i = 0;
+        while i < REF_MAXTOK {
+            if i < rb.n {
+                if rb.toks[i].is_ref {
+                    let mut k = 0;
+                    while k < rb.toks[i].len { let b = exp[exp.len() - rb.toks[i].dist as usize]; exp.push(b); k += 1; }
+                } else { exp.push(rb.toks[i].lit); }
+            }
+            i += 1;
+        }
+        assert!(plain.len() == exp.len(), "plaintext length differs from the reference");
+        let mut i = 0;
+        while i < exp.len() { assert!(plain[i] == exp[i], "plaintext differs from the reference"); i += 1; }
+    }
+
+    // --- C07: rewrite identity
+    let mut w = DeflateWriter::new();
+    w.encode_block(&blk, last).unwrap();
+    w.flush_with_padding(pad);
+    let out = w.detach_output();
+    assert!(out.len() == consumed, "rewritten length differs from the consumed length");
+    let mut i = 0;
+    while i < N {
+        if i < consumed { assert!(out[i] == data[i], "rewritten fixed block differs from the input"); }
+        i += 1;
+    }
+    kani::cover!(rb.n >= 1 && rb.toks[0].is_ref, "a block with a reference token was accepted");
+    kani::cover!(rb.n == 0, "empty block");
+}
+
+kproof! {
+    /// K07b/K03b: every fixed-Huffman block with at most ONE token (any literal, any (length, distance),
+    /// incl. 284+31 for 258) followed by EOB, all final padding patterns; window pre-filled (32768)
+    #[kani::stub(crate::huffman_encoding::HuffmanReader::create_fixed, crate::huffman_encoding::verif_harness::stub_create_fixed)]
+    #[kani::stub(crate::huffman_encoding::HuffmanWriter::start_fixed_huffman_table, crate::huffman_encoding::verif_harness::stub_start_fixed)]
+    #[kani::stub(crate::deflate_reader::DeflateReader::write_reference, stub_write_reference)]
+    #[kani::stub(crate::deflate_reader::DeflateReader::write_literal, stub_write_literal)]
+    fn k07b_fixed_token_6() { fixed_rewrite::<6>(32768, false, 1); }
+}
+
+kproof! {
+    /// K07b': all fixed-Huffman blocks of <= 3 tokens that end within 3 bytes
+    #[kani::stub(crate::huffman_encoding::HuffmanReader::create_fixed, crate::huffman_encoding::verif_harness::stub_create_fixed)]
+    #[kani::stub(crate::huffman_encoding::HuffmanWriter::start_fixed_huffman_table, crate::huffman_encoding::verif_harness::stub_start_fixed)]
+    #[kani::stub(crate::deflate_reader::DeflateReader::write_reference, stub_write_reference)]
+    #[kani::stub(crate::deflate_reader::DeflateReader::write_literal, stub_write_literal)]
+    fn k07b_fixed_rewrite_3() { fixed_rewrite::<3>(32768, false, 2); }
+}
+kproof! {
+    /// K03b: plaintext of fixed blocks equals the reference's (real write_literal / write_reference),
+    /// 4-byte window of zeros, blocks within 3 bytes
+    #[kani::stub(crate::huffman_encoding::HuffmanReader::create_fixed, crate::huffman_encoding::verif_harness::stub_create_fixed)]
+    #[kani::stub(crate::huffman_encoding::HuffmanWriter::start_fixed_huffman_table, crate::huffman_encoding::verif_harness::stub_start_fixed)]
+    fn k03b_fixed_plain_3() { fixed_rewrite::<3>(4, true, 2); }
+}
